@@ -9,8 +9,8 @@
    reference itself.
 
    A stream is the list of bytes the server sends followed by EOF.  Every parser returns
-   the unconsumed rest.  bufio's buffer size matters in exactly three places, all modelled:
-   the chunk-size line must fit the buffer (ReadSlice -> ErrBufferFull), must be shorter
+   the unconsumed rest.  bufio's buffer size matters in exactly four places, all modelled:
+   an unterminated last line that ends exactly at a buffer boundary is lost (io.EOF), the chunk-size line must fit the buffer (ReadSlice -> ErrBufferFull), must be shorter
    than 4096, and the trailer's terminating CRLFCRLF must lie within one buffer.
    No proofs here. *)
 From ReqV Require Export Lib.Bytes.
@@ -47,13 +47,28 @@ Fixpoint strip_cr (l : bytes) : bytes :=
   | x :: r => x :: strip_cr r
   end.
 
-(* None = io.EOF (no byte left).  A last line without LF is returned whole. *)
-Definition read_line (s : bytes) : option (bytes * bytes) :=
+Definition ends_with_cr (l : bytes) : bool :=
+  match rev l with x :: _ => beqb x CR | [] => false end.
+
+(* A last line WITHOUT LF, read through a bufio.Reader of [bufsize] bytes: ReadLine hands out
+   buffer-sized fragments (isPrefix; a trailing CR is put back); if the bytes run out exactly at
+   a fragment boundary the next ReadLine reports io.EOF and readLineSlice drops the whole line. *)
+Fixpoint unterminated_lost (fuel bufsize : nat) (s : bytes) : bool :=
+  match fuel with
+  | O => false
+  | S f =>
+      if length s <? bufsize then is_nil s
+      else let k := if ends_with_cr (firstn bufsize s) then bufsize - 1 else bufsize in
+           unterminated_lost f bufsize (skipn k s)
+  end.
+
+(* None = io.EOF.  A last line without LF is returned whole (unless lost, see above). *)
+Definition read_line (bufsize : nat) (s : bytes) : option (bytes * bytes) :=
   match s with
   | [] => None
   | _ => match cut_byte LF s with
          | Some (a, r) => Some (strip_cr a, r)
-         | None => Some (s, [])
+         | None => if unterminated_lost (S (length s)) bufsize s then None else Some (s, [])
          end
   end.
 
@@ -164,7 +179,7 @@ Arguments FOk {A} _.
 Arguments FFuel {A}.
 
 (* continuation lines of readContinuedLineSlice; [buf] = trim(first line) *)
-Fixpoint cont_lines (fuel : nat) (buf s : bytes) : fres (bytes * bytes) :=
+Fixpoint cont_lines (fuel bufsize : nat) (buf s : bytes) : fres (bytes * bytes) :=
   match fuel with
   | O => FFuel
   | S f =>
@@ -172,26 +187,26 @@ Fixpoint cont_lines (fuel : nat) (buf s : bytes) : fres (bytes * bytes) :=
       | x :: _ =>
           if is_sp_tab x then
             let s' := drop_while is_sp_tab s in          (* skipSpace() > 0 *)
-            match read_line s' with
+            match read_line bufsize s' with
             | None => FOk (buf ++ [SP], [])              (* read error: break *)
-            | Some (l, r) => cont_lines f (buf ++ SP :: trim_sp_tab l) r
+            | Some (l, r) => cont_lines f bufsize (buf ++ SP :: trim_sp_tab l) r
             end
           else FOk (buf, s)
       | [] => FOk (buf, s)
       end
   end.
 
-Fixpoint mime_loop (fuel : nat) (m : hmap) (s : bytes) : herr + (hmap * bytes) :=
+Fixpoint mime_loop (fuel bufsize : nat) (m : hmap) (s : bytes) : herr + (hmap * bytes) :=
   match fuel with
   | O => inl HOutOfFuel
   | S f =>
-      match read_line s with
+      match read_line bufsize s with
       | None => inl HUnexpectedEOF
       | Some (line, r) =>
           if is_nil line then inr (m, r)
           else if negb (mem_byte COLON line) then inl HMalformedHeader
           else
-            match cont_lines (S (length r)) (trim_sp_tab line) r with
+            match cont_lines (S (length r)) bufsize (trim_sp_tab line) r with
             | FFuel => inl HOutOfFuel
             | FOk (kv, r') =>
                 match cut_byte COLON kv with
@@ -201,7 +216,7 @@ Fixpoint mime_loop (fuel : nat) (m : hmap) (s : bytes) : herr + (hmap * bytes) :
                     | None => inl HMalformedHeader
                     | Some key =>
                         if forallb valid_value_byte v
-                        then mime_loop f (hadd key (trim_left is_sp_tab v) m) r'
+                        then mime_loop f bufsize (hadd key (trim_left is_sp_tab v) m) r'
                         else inl HMalformedHeader
                     end
                 end
@@ -209,11 +224,18 @@ Fixpoint mime_loop (fuel : nat) (m : hmap) (s : bytes) : herr + (hmap * bytes) :
       end
   end.
 
-Definition read_mime_header (s : bytes) : herr + (hmap * bytes) :=
+(* the initial line must not start with a blank: readLineSlice(80) then ProtocolError - or
+   io.EOF when the (short, unterminated) line is lost *)
+Definition read_mime_header (bufsize : nat) (s : bytes) : herr + (hmap * bytes) :=
   match s with
-  | x :: _ => if is_sp_tab x then inl HMalformedHeader   (* initial line starts with space *)
-              else mime_loop (S (length s)) [] s
-  | [] => mime_loop (S (length s)) [] s
+  | x :: _ =>
+      if is_sp_tab x then
+        match read_line bufsize s with
+        | None => if length s <=? 80 then inl HUnexpectedEOF else inl HMalformedHeader
+        | Some _ => inl HMalformedHeader
+        end
+      else mime_loop (S (length s)) bufsize [] s
+  | [] => mime_loop (S (length s)) bufsize [] s
   end.
 
 (* ---------- status line ---------- *)
@@ -562,7 +584,7 @@ Definition read_trailer (bufsize : nat) (s : bytes) : berr + (hmap * bytes) :=
   | c1 :: c2 :: rest =>
       if beqb c1 CR && beqb c2 LF then inr ([], rest)
       else if negb (see_upcoming_double_crlf bufsize s) then inl BTrailerTooLong
-      else match read_mime_header s with
+      else match read_mime_header bufsize s with
            | inl HUnexpectedEOF => inl BTrailerEOF
            | inl HOutOfFuel => inl BOutOfFuel
            | inl _ => inl BTrailerMalformed
@@ -603,14 +625,14 @@ Definition read_body (bufsize : nat) (r : resp) (s : bytes) : body_result :=
   end.
 
 (* ReadResponse up to and including readTransfer: the response and the rest of the stream *)
-Definition read_response_head (meth : bytes) (s : bytes) : herr + (resp * bytes) :=
-  match read_line s with
+Definition read_response_head (meth : bytes) (bufsize : nat) (s : bytes) : herr + (resp * bytes) :=
+  match read_line bufsize s with
   | None => inl HUnexpectedEOF
   | Some (line, s1) =>
       match parse_status_line line with
       | inl e => inl e
       | inr sl =>
-          match read_mime_header s1 with
+          match read_mime_header bufsize s1 with
           | inl e => inl e
           | inr (h, s2) =>
               match read_transfer meth sl (fix_pragma_cache_control h) with
@@ -626,7 +648,7 @@ Inductive outcome :=
 | Accepted (r : resp) (b : body_result).
 
 Definition parse_response (meth : bytes) (bufsize : nat) (s : bytes) : outcome :=
-  match read_response_head meth s with
+  match read_response_head meth bufsize s with
   | inl e => Rejected e
   | inr (r, rest) => Accepted r (read_body bufsize r rest)
   end.
